@@ -2,7 +2,7 @@
    Only statements, closed by [exact lemma], with Print Assumptions beneath. *)
 From Coq Require Import String List NArith ZArith Bool Permutation.
 From J5V.lib Require Import Outcome.
-From J5V.model Require Import ReflectDesc ReflectSchema Reflect Export.
+From J5V.model Require Import ReflectDesc ReflectSchema Reflect ExportForm Export.
 From J5V.gen Require ReflectGen.
 From J5V.proofs Require Import ReflectProofs ExportProofs ReflectInvProofs.
 Import ListNotations.
@@ -11,8 +11,9 @@ Definition entries_of (st : sset) : list (ref * root) :=
   flat_map (fun ke => match snd ke with Linked r => [(fst ke, r)] | Placeholder => [] end) st.
 
 (* The property at full strength: for EVERY descriptor set and selection of files, if reflection
-   succeeds with the set S then exporting S, importing the export and exporting again gives exactly
-   the first export, with every reference resolved. *)
+   succeeds with the set S then exporting S (to terms of the source form: list (ref * xroot)),
+   importing the export (back to the reader's objects) and exporting again gives exactly the first
+   export, with every reference resolved. *)
 Definition C15_full_statement : Prop :=
   forall (D : desc) (fs : list filed) (S : sset),
     reflect D fs = Ok S ->
@@ -36,10 +37,27 @@ Theorem C15_root_inverse : forall r, root_importable r = true ->
 Proof. exact import_export_root. Qed.
 Print Assumptions C15_root_inverse.
 
-(* the export loses nothing but the proto Kind / well-known type name of scalars *)
-Theorem C15_export_is_erasure : forall r, export_root r = erase_root r.
-Proof. exact export_root_erase. Qed.
+(* the export loses nothing but the proto Kind / well-known type name of scalars: it is the plain
+   embedding [form_of_root] of the reader's objects into the source form (ExportForm.v), which looks
+   nothing up in the copy tables *)
+Theorem C15_export_is_erasure : forall r, export_root r = form_of_root r.
+Proof. exact export_root_form. Qed.
 Print Assumptions C15_export_is_erasure.
+
+(* where nothing is lost the import gives back the very same object: enums *)
+Theorem C15_enum_exact : forall n d p o i,
+  import_root (export_root (REnum n d p o i)) = ROk (REnum n d p o i).
+Proof. exact import_export_enum. Qed.
+Print Assumptions C15_enum_exact.
+
+(* the source form can say more than the export ever does: an inline (or unset) schema of an
+   enum / object / oneof field. The import cannot link it (the field gets AsRef() with To == nil and
+   assertRefsLink rejects it), so it is outside what can be re-imported; the export never produces it *)
+Theorem C15_inline_not_importable : forall rules lr ext,
+  (exists c, import_field (XEnum XInline rules lr ext) = RErr c) /\
+  (exists c, import_field (XEnum XUnset rules lr ext) = RErr c).
+Proof. exact import_inline_rejected. Qed.
+Print Assumptions C15_inline_not_importable.
 
 (* ---- lifted over the reference environment, for any set with distinct names, formats the import
    knows and no dangling reference (C15_reflected_roundtrip derives these three facts for reflected
@@ -86,7 +104,7 @@ Print Assumptions C15_copy_lines_read_the_member_the_model_copies.
 
 (* buildSchemas ranges over Go maps: the result does not depend on the order *)
 Theorem C15_order_independent : forall e1 e2,
-  Permutation e1 e2 -> NoDup (map fst e1) -> all_importable e1 -> closed e1 ->
+  Permutation e1 e2 -> NoDup (map fst e1) -> xall_importable e1 -> xclosed e1 ->
   exists st1 st2, import_api e1 = ROk st1 /\ import_api e2 = ROk st2 /\ forall k, lookup st1 k = lookup st2 k.
 Proof. exact import_api_order_independent. Qed.
 Print Assumptions C15_order_independent.
